@@ -92,7 +92,32 @@ def unit(ctx):
             if m and ("count(" in a or "len(" in a) and "chars(" in a and "encode_utf16(" not in a and "len_utf16" not in a:
                 n += 1
                 res.fail(Finding("R-UNIT", "R-UNIT/%s/length-key" % f.path, "length test %s counts characters, not UTF-16 code units" % a[:120], f, f.blocks[b]["term"]["span"]))
+    # the order among names of equal length: MS-CFB 2.6.4 compares upper-cased UTF-16 code units.  A sequence of chars
+    # (scalar values) orders differently as soon as a supplementary-plane character (a surrogate pair, 0xD800..0xDFFF)
+    # meets a character in U+E000..U+FFFF.  Positive evidence only: both operands of a sequence comparison are the
+    # chars() of a name passed through map(..) steps and nothing else.
+    nk = 0
+    for bb, c in sorted(v.calls.items()):
+        seq = re.search(r"iter::Iterator::(cmp|partial_cmp|lt|le|gt|ge|eq|ne|cmp_by)$", c.name)
+        one = re.search(r"Ord for char>::cmp$|PartialOrd for char>::partial_cmp$", c.name)
+        if not (seq or one):
+            continue
+        ops = [pr.operand(a) for a in c.term["args"][:2]]
+        atoms = g.atoms_at(("t", bb))
+        if any(re.search(r"is_ascii\(param:\w+\)", a) and " is not " not in a and not a.startswith("(Not") and "is false" not in a for a in atoms):
+            continue
+        nk += 1
+        chars_only = r"^(Iterator::map\()*<impl str>::chars\(param:\w+\)(,[^(),]+\))*$"
+        key = "R-UNIT/%s/order-key" % f.path
+        if seq and all(re.match(chars_only, o) for o in ops):
+            res.fail(Finding("R-UNIT", key, "names of equal length are ordered by comparing their chars (%s): MS-CFB orders by upper-cased UTF-16 code UNITS, and a character outside the BMP (a surrogate pair, 0xD800..0xDFFF) sorts before U+E000..U+FFFF there but after them as a scalar value - listings come out in the wrong order and a sibling tree ordered as the specification says is refused as 'name ordering'" % ops[0][:100], f, c.term["span"]))
+        elif one and not any("encode_utf16" in o or "utf16" in o for o in ops):
+            res.fail(Finding("R-UNIT", key, "names of equal length are ordered by comparing chars one by one (%s): MS-CFB orders by upper-cased UTF-16 code units" % ops[0][:100], f, c.term["span"]))
+        else:
+            verdict = "code units" if all(("utf16" in o) for o in ops) else "no verdict (not a plain sequence of chars)"
+            res.ok({"function": f.path, "line": c.line, "order_keys": [o[:100] for o in ops], "verdict": verdict}, nontrivial=True)
     res.floor("length-key comparisons", n, ctx.table("floors").get("unit_sites", 0))
+    res.floor("order-key comparisons outside the ASCII path", nk, ctx.table("floors").get("unit_order_sites", 0))
     return res
 
 
@@ -1127,6 +1152,112 @@ def nameinv(pid):
                 res.ok({"function": f.path, "ok_return_line": st["span"]["line"], "validate_name_calls": nval, "barrier_nodes": len(barriers)}, nontrivial=True)
         res.floor("Ok returns of read_from", len(oks), ctx.table("floors").get("nameinv_oks", 0))
         res.floor("validate_name calls in read_from", nval, ctx.table("floors").get("nameinv_validate", 0))
+        return res
+    return run
+
+
+def lenbound(pid):
+    """R-LENBOUND (invariant I-LENBOUND): the position arithmetic of a stream handle (window offset + buffered amount,
+    offset + length of a write-back) and the mini allocator's `root length + 64` are plain u64 additions; they cannot
+    overflow only because no entry of the table claims a length anywhere near u64::MAX.  DirEntry::read_from is where
+    lengths enter the table from a file: every Ok return for an entry of type Stream or Root must lie behind a
+    comparison that bounds the length it stores (by an expression built from MAX_REGULAR_SECTOR, or by a constant of
+    at most 2^56), or behind the replacement of the length by a constant.  (Defect D14: a damaged version 4 entry with
+    a length of u64::MAX - k was accepted by permissive open; seek(End(0)) + write panicked.)"""
+    from rules_sink import _edge_label
+    from core import numeric as _numeric
+    from prov import prov_eq
+
+    def bounded(expr):
+        n = _numeric(expr)
+        if "MAX_REGULAR_SECTOR" in expr or "const:4294967290" in n:
+            return True
+        m = re.match(r"^const:(\d+)$", n)
+        return bool(m and int(m.group(1)) <= (1 << 56))
+
+    def split2(a):
+        """`(Le(A,B))` / `(Lt(A,B))` -> (A, B), split at the top-level comma."""
+        m = re.match(r"^\((Le|Lt)\((.*)\)\)$", a)
+        if not m:
+            return None
+        body, depth = m.group(2), 0
+        for i, ch in enumerate(body):
+            if ch in "([":
+                depth += 1
+            elif ch in ")]":
+                depth -= 1
+            elif ch == "," and depth == 0:
+                return body[:i], body[i + 1:]
+        return None
+
+    def run(ctx):
+        res = RuleResult("R-LENBOUND(%s)" % pid, "every Ok return of DirEntry::read_from for a Stream or Root entry lies behind a comparison that bounds the stream length it stores (MAX_REGULAR_SECTOR x sector length), or behind its replacement by a constant")
+        f = ctx.fx.fns.get("internal::direntry::DirEntry::read_from")
+        if f is None:
+            res.gone.append("DirEntry::read_from")
+            return res
+        v = view(ctx, f)
+        pg = v.pg
+        g = _guards(ctx, f)
+        pr = Prov(f)
+        oks = []
+        for bb, blk in enumerate(f.blocks):
+            if blk["cleanup"]:
+                continue
+            for i, st in enumerate(blk["stmts"]):
+                if st["s"] == "assign" and st["place"]["local"] == 0 and not st["place"]["proj"] and st["rv"]["r"] == "aggregate" and st["rv"].get("variant") == "Ok":
+                    oks.append((("s", bb, i), st))
+        # the variable(s) the length field of the built entry is taken from
+        lenvars = set()
+        for bb, blk in enumerate(f.blocks):
+            if blk["cleanup"]:
+                continue
+            for i, st in enumerate(blk["stmts"]):
+                if st["s"] == "assign" and st["rv"]["r"] == "aggregate" and str(st["rv"].get("adt", "")).endswith("DirEntry"):
+                    names = st["rv"].get("fields") or []
+                    for k, op in enumerate(st["rv"].get("ops", [])):
+                        if k < len(names) and names[k] == "stream_len":
+                            lenvars.add(pr.operand(op))
+        if not lenvars:
+            lenvars = {"var:stream_len"}
+        edges = []
+        for b, blk in enumerate(f.blocks):
+            if blk["cleanup"] or blk["term"]["t"] != "switch":
+                continue
+            for k, tgt in enumerate(f.succ(b)):
+                val, vals = _edge_label(f, b, k)
+                edges.append((b, tgt, g.describe_all(b, val, vals)))
+        names = {nm: l for l, nm in f.debug_names().items()}
+        n = 0
+        for otype in ("Stream", "Root"):
+            barrier = set()
+            nb = 0
+            for (b, tgt, atoms) in edges:
+                for a in atoms:
+                    sp = split2(a)
+                    if sp and any(prov_eq(sp[0], lv) for lv in lenvars) and bounded(sp[1]):
+                        barrier.update(pg.edge_node(b, tgt))
+                        nb += 1
+                    # an entry of another type: its length is replaced (Storage) or never used (Unallocated)
+                    if re.search(r" is not ObjType::%s$" % otype, a) or (re.search(r" is ObjType::(\w+)$", a) and not a.endswith("::" + otype)):
+                        barrier.update(pg.edge_node(b, tgt))
+            for lv in lenvars:
+                nm = lv[4:] if lv.startswith("var:") else None
+                for l in [l_ for l_, nm_ in f.debug_names().items() if nm_ == nm]:
+                    for d in pr.defs.get(l, []):
+                        dp = pr._def(d, 1, (l,))
+                        if re.match(r"^const:[^()]*$", dp):
+                            barrier.add(("t", d[0]) if d[1] == "t" else ("s", d[0], d[1]))
+            reach = pg.reach([pg.entry()], barrier)
+            key = "R-LENBOUND/%s/%s-length-unbounded" % (f.path, otype.lower())
+            bad = [st for (node, st) in oks if node in reach]
+            n += 1
+            if bad:
+                res.fail(Finding(res.rule, key, "a %s entry can reach the Ok return of read_from with a stream length no comparison has bounded (MAX_REGULAR_SECTOR x sector length): a damaged version 4 entry may claim a length close to u64::MAX, permissive open accepts it, and the handle's position arithmetic (window offset + buffered amount; root length + 64) overflows on the first write at its end" % otype.lower(), f, bad[0]["span"]))
+            else:
+                res.ok({"object_type": otype, "length_variables": sorted(lenvars), "bounding_edges": nb, "ok_returns": len(oks)}, nontrivial=True)
+        res.floor("Ok returns of read_from", len(oks), ctx.table("floors").get("nameinv_oks", 0))
+        res.floor("object types with a length", n, 2)
         return res
     return run
 
